@@ -442,6 +442,8 @@ def oracle(rec, mfs_before, lib):
             if p in cur:
                 if d != cur[p].encode("utf-8"):
                     fails.append(("C15", "%s does not hold the expected text after the run" % p))
+                    # the same observation read as C16: this front-end did not produce the library's text for these options
+                    fails.append(("C16", "%s: the text written in place differs from the library's text for the same options" % p))
                 if ch != (p in writes):
                     fails.append(("C15", "%s: modification time %s although it %s" % (
                         p, "changed" if ch else "kept", "should be rewritten" if p in writes else "should be left alone")))
@@ -578,4 +580,17 @@ def corpus_scenarios(shapes):
                 res.append(mk(dict(wide), [inv("files-plain", inputs=["w.typ", "n.typ", "i.typ"], column=col, tab=tab, reorder=(col == 80))]))
         for c in ["#let a = (", "#let a  =  1", "", "x", "x\r\n"]:
             res.append(mk({"b.typ": T("x\n")}, [inv("stdin-plain", stdin=c)]))
+    if "all" in shapes or "files-inplace" in shapes or "stdin-plain" in shapes:
+        # every style option must reach the library from every front-end: files whose result depends on
+        # the column, on the unit and on the import order
+        style = {"w.typ": T(CONTENTS[7][1]), "n.typ": T(CONTENTS[8][1]), "i.typ": T(CONTENTS[9][1]),
+                 "x": ("D",), "x/j.typ": T("#import \"m.typ\": z, y as q, a.b\n#let f(x) = {\nif x {\n1\n}\n}\n")}
+        for (col, tab, reo) in [(None, None, True), (40, 4, True), (0, 1, True), (120, 8, False), (40, None, False)]:
+            if "all" in shapes:
+                res.append(mk(dict(style), [inv("all", column=col, tab=tab, reorder=reo)]))
+                res.append(mk(dict(style), [inv("all", dir="x", column=col, tab=tab, reorder=reo)]))
+            if "files-inplace" in shapes:
+                res.append(mk(dict(style), [inv("files-inplace", inputs=["w.typ", "n.typ", "i.typ", "x/j.typ"], column=col, tab=tab, reorder=reo)]))
+            if "stdin-plain" in shapes:
+                res.append(mk(dict(style), [inv("stdin-plain", stdin=style["x/j.typ"][1], column=col, tab=tab, reorder=reo)]))
     return res
